@@ -548,6 +548,228 @@ Definition load_material (effects : lib) (e : et) : outcome (option aval * N * V
     Ok (eattr a_id e, euid e, Vl [Vn (euid e); Voaval (eattr a_id e); Voaval (eattr a_name e); Vn target]))
   end.
 
+(* ------------------------------------------------------------------ images and effects (Stage 2) *)
+
+(* three element names that are not in the shared vocabulary: the harness interns them first in every
+   case, so they are always the first three dynamic atoms *)
+Definition a_float2 : atom := dyn_base.
+Definition a_float3 : atom := (dyn_base + 1)%N.
+Definition a_float4 : atom := (dyn_base + 2)%N.
+
+Definition Vtext (t : option (list tok)) : V := Vopt (fun l => Vl (map Vtok l)) t.
+
+(* CImage.load *)
+Definition load_image (e : et) : outcome (option aval * N * V) :=
+  match efind a_init_from e with
+  | None => Raise DaeIncomplete
+  | Some i => Ok (eattr a_id e, euid e, Vl [Vn (euid e); Voaval (eattr a_id e); Vtext (etext i)])
+  end.
+
+(* what a sid of the effect's local scope maps to *)
+Inductive lentry :=
+  | LSurface (uid : N) (image : N)
+  | LSampler (uid : N) (sid : option aval)
+  | LFloats (l : list N).
+Definition lscope := list (atom * lentry).
+
+Inductive pval := PNum (l : list N) | PMap (sampler : option aval) (texcoord : option aval) | POther.
+
+Definition word_of (t : option (list tok)) : option atom := match t with Some [TWord a] => Some a | _ => None end.
+
+(* Surface.load / Sampler2D.load / the float branch of getEffectParameters, over the <newparam> children
+   of one parent; returns the params appended and the scope *)
+Fixpoint effect_params (numtab : list N) (images : lib) (ps : list et) (sc : lscope) (acc : list V)
+  : outcome (lscope * list V) :=
+  match ps with
+  | [] => Ok (sc, acc)
+  | p :: r =>
+      match efind a_surface p with
+      | Some sf =>
+          match eattr a_type sf with
+          | Some (AStr t) =>
+              if negb (N.eqb t a_2D) then Raise DaeMalformed else
+              match efind a_init_from sf with
+              | None => Raise DaeIncomplete
+              | Some ini =>
+                  match word_of (etext ini) with
+                  | None => Raise OutOfFuel
+                  | Some imgid =>
+                      match lib_get images imgid with
+                      | None => Raise DaeBrokenRef
+                      | Some img =>
+                          let fmt := match efind a_format sf with
+                                     | Some f => etext f
+                                     | None => Some [TWord a_A8R8G8B8]
+                                     end in
+                          obind (id_atom (eattr a_sid p)) (fun sid =>
+                          effect_params numtab images r (dset N.eqb sc sid (LSurface (euid p) img))
+                                        (acc ++ [Vl [Vn 0%N; Vn (euid p); Voaval (eattr a_sid p); Vtext fmt; Vn img]]))
+                      end
+                  end
+              end
+          | _ => Raise DaeMalformed
+          end
+      | None =>
+        match efind a_sampler2D p with
+        | Some sm =>
+            match efind a_source sm with
+            | None => Raise DaeIncomplete
+            | Some src =>
+                match word_of (etext src) with
+                | None => Raise OutOfFuel
+                | Some sfid =>
+                    match dget N.eqb sc sfid with
+                    | Some (LSurface su _) =>
+                        let tx t := option_map etext (efind t sm) in
+                        obind (id_atom (eattr a_sid p)) (fun sid =>
+                        effect_params numtab images r (dset N.eqb sc sid (LSampler (euid p) (eattr a_sid p)))
+                                      (acc ++ [Vl [Vn 1%N; Vn (euid p); Voaval (eattr a_sid p);
+                                                   Vopt Vtext (tx a_minfilter); Vopt Vtext (tx a_magfilter); Vn su]]))
+                    | _ => Raise DaeBrokenRef
+                    end
+                end
+            end
+        | None =>
+            let fnode := match efind a_float p with Some f => Some f | None =>
+                         match efind a_float2 p with Some f => Some f | None =>
+                         match efind a_float3 p with Some f => Some f | None => efind a_float4 p end end end in
+            match fnode, eattr a_sid p with
+            | Some f, Some (AStr sid) =>
+                match etext f with
+                | None => effect_params numtab images r sc acc
+                | Some l => obind (of_option PyValueError (classes numtab l)) (fun fs =>
+                            effect_params numtab images r (dset N.eqb sc sid (LFloats fs)) acc)
+                end
+            | Some _, Some _ => Raise OutOfFuel
+            | _, _ => effect_params numtab images r sc acc
+            end
+        end
+      end
+  end.
+
+(* Map.load when the sampler is in the local scope (the repair paths for missing samplers are outside
+   the model) *)
+Definition load_map (sc : lscope) (tx : et) : outcome pval :=
+  match eattr a_texture tx with
+  | Some (AStr s) => match dget N.eqb sc s with
+                     | Some (LSampler _ sid) => Ok (PMap sid (eattr a_texcoord tx))
+                     | _ => Raise OutOfFuel
+                     end
+  | _ => Raise OutOfFuel
+  end.
+
+(* _fixColorValues: a colour tuple shorter than 4 is padded with 0.0 up to three values and then 1.0 *)
+Definition zero_class : N := 0%N.
+Definition one_class : N := 2%N.       (* int_class 1 *)
+Definition pad_color (c : list N) : list N :=
+  if Nat.ltb (length c) 4
+  then let c3 := c ++ repeat zero_class (3 - length c) in c3 ++ repeat one_class (4 - length c3)
+  else c.
+(* SPEC: R, G, B default to 0, A to 1 *)
+Definition spec_color (c : list N) : list N :=
+  match c with
+  | [] => [zero_class; zero_class; zero_class; one_class]
+  | [r] => [r; zero_class; zero_class; one_class]
+  | [r; g] => [r; g; zero_class; one_class]
+  | [r; g; b] => [r; g; b; one_class]
+  | _ => c
+  end.
+
+(* Effect._loadShadingParam followed by the constructor's colour fix *)
+Definition shading_param (numtab : list N) (sc : lscope) (pnode : et) : outcome (option pval) :=
+  match first_kid pnode with
+  | None => Raise DaeIncomplete
+  | Some v =>
+      if has_own a_color v then
+        match etext v with
+        | None => Raise PyAttributeError
+        | Some l => omap (fun c => Some (PNum (pad_color c))) (of_option DaeMalformed (classes numtab l))
+        end
+      else if has_own a_float v then
+        match etext v with
+        | None => Raise PyTypeError
+        | Some [x] => omap (fun c => Some (PNum [c])) (of_option DaeMalformed (cls numtab x))
+        | Some _ => Raise DaeMalformed
+        end
+      else if has_own a_texture v then omap Some (load_map sc v)
+      else if has_own a_param v then
+        match eattr a_ref v with
+        | Some (AStr r) => match dget N.eqb sc r with
+                           | Some (LFloats l) => Ok (Some (PNum l))
+                           | Some _ => Ok (Some POther)
+                           | None => Ok None
+                           end
+        | Some _ => Raise OutOfFuel
+        | None => Ok None
+        end
+      else Raise DaeUnsupported
+  end.
+
+Definition Vpval (p : pval) : V :=
+  match p with
+  | PNum l => Vl [Vn 0%N; Vl (map Vn l)]
+  | PMap s t => Vl [Vn 1%N; Voaval s; Voaval t]
+  | POther => Vl [Vn 2%N]
+  end.
+
+Definition supported_props : list atom :=
+  [a_emission; a_ambient; a_diffuse; a_specular; a_shininess; a_reflective; a_reflectivity;
+   a_transparent; a_transparency; a_index_of_refraction].
+
+Definition load_effect (numtab : list N) (images : lib) (e : et) : outcome (option aval * N * V) :=
+  match efind a_profile_COMMON e with
+  | None => Raise DaeUnsupported
+  | Some prof =>
+    match efindall a_image prof with
+    | _ :: _ => Raise OutOfFuel                      (* profile-local images: outside the model *)
+    | [] =>
+      obind (effect_params numtab images (efindall a_newparam prof) [] []) (fun r1 =>
+      match efind a_technique prof with
+      | None => Raise PyAttributeError
+      | Some tec =>
+        obind (effect_params numtab images (efindall a_newparam tec) (fst r1) (snd r1)) (fun r2 =>
+        let sc := fst r2 in
+        let shader := match efind a_phong tec with Some s => Some (a_phong, s) | None =>
+                      match efind a_lambert tec with Some s => Some (a_lambert, s) | None =>
+                      match efind a_blinn tec with Some s => Some (a_blinn, s) | None =>
+                      match efind a_constant tec with Some s => Some (a_constant, s) | None => None end end end end in
+        match shader with
+        | None => Raise DaeIncomplete
+        | Some (sk, sh) =>
+          obind (omapM (fun key => match efind key sh with
+                                   | None => Ok None
+                                   | Some pn => shading_param numtab sc pn
+                                   end) supported_props) (fun props =>
+          let transparent := nth 7 props None in
+          let rgb_zero := match transparent, efind a_transparent sh with
+                          | Some _, Some pn => match eattr a_opaque pn with
+                                               | Some (AStr o) => N.eqb o a_RGB_ZERO
+                                               | _ => false
+                                               end
+                          | _, _ => false
+                          end in
+          (* the constructor: transparency defaults to 1.0 (A_ONE) or 0.0 (RGB_ZERO) *)
+          let props' := map (fun ip => match fst ip, snd ip with
+                                       | 8, None => Some (PNum [if rgb_zero then zero_class else one_class])
+                                       | _, v => v
+                                       end) (combine (seq 0 (length props)) props) in
+          obind (match find_under_extra a_texture e with
+                 | None => Ok None
+                 | Some b => match load_map sc b with
+                             | Ok m => Ok (Some m)
+                             | Raise OutOfFuel => Raise OutOfFuel
+                             | Raise x => Raise x
+                             end
+                 end) (fun bump =>
+          Ok (eattr a_id e, euid e,
+              Vl [Vn (euid e); Voaval (eattr a_id e); Vn sk; Vb (flag_one (find_under_extra a_double_sided e));
+                  Vn (if rgb_zero then a_RGB_ZERO else a_A_ONE); Vl (snd r2); Vl (map (Vopt Vpval) props');
+                  Vopt Vpval bump])))
+        end)
+      end)
+    end
+  end.
+
 (* ------------------------------------------------------------------ scene graph *)
 
 Definition tview := (atom * N * list N)%type.      (* kind, uid, parameters *)
@@ -834,11 +1056,11 @@ Fixpoint load_animation (numtab : list N) (d : list (atom * source_view)) (e : e
 Definition lib_elems (libtag item : atom) (root : et) : list et :=
   flat_map (efindall item) (efindall libtag root).
 
-Record doc := mkDoc { d_effects : list V; d_materials : list V; d_animations : list V; d_geometries : list V;
+Record doc := mkDoc { d_images : list V; d_effects : list V; d_materials : list V; d_animations : list V; d_geometries : list V;
                       d_controllers : list V; d_lights : list V; d_cameras : list V; d_nodes : list V;
                       d_scenes : list V; d_scene : option N }.
 Definition Vdoc (d : doc) : V :=
-  Vl [Vl (d_effects d); Vl (d_materials d); Vl (d_animations d); Vl (d_geometries d); Vl (d_controllers d);
+  Vl [Vl (d_images d); Vl (d_effects d); Vl (d_materials d); Vl (d_animations d); Vl (d_geometries d); Vl (d_controllers d);
       Vl (d_lights d); Vl (d_cameras d); Vl (d_nodes d); Vl (d_scenes d); Vopt Vn (d_scene d)].
 
 Fixpoint lib_nodes_all (nl : env -> et -> outcome nview) (en : env) (libs : list et) (acc : list nview)
@@ -855,10 +1077,10 @@ Section Document.
   Variable node_loader : env -> et -> outcome nview.
 
   Definition load_document (root : et) : outcome doc :=
-    (* _loadEffects: Stage 1 keeps (uid, id) of every <effect> that has a profile_COMMON *)
-    let effs := List.filter (fun e => match efind a_profile_COMMON e with Some _ => true | None => false end)
-                            (lib_elems a_library_effects a_effect root) in
-    let efflib : lib := map (fun e => (eattr a_id e, euid e)) effs in
+    obind (omapM load_image (lib_elems a_library_images a_image root)) (fun imgs =>
+    let imglib : lib := map (fun i => (fst (fst i), snd (fst i))) imgs in
+    obind (omapM (load_effect numtab imglib) (lib_elems a_library_effects a_effect root)) (fun effs =>
+    let efflib : lib := map (fun x => (fst (fst x), snd (fst x))) effs in
     obind (omapM (load_material efflib) (lib_elems a_library_materials a_material root)) (fun mats =>
     obind (omapM (fun a => omap (fun p => Vl [Vaview (fst p); Vdict (snd p)]) (load_animation numtab [] a))
                  (lib_elems a_library_animations a_animation root)) (fun anims =>
@@ -884,11 +1106,11 @@ Section Document.
            | None => Ok None
            | Some i => omap Some (resolve_url (map (fun s => (fst (fst s), snd (fst s))) scenes) (eattr a_url i))
            end) (fun sc =>
-    Ok (mkDoc (map (fun e => Vl [Vn (euid e); Voaval (eattr a_id e)]) effs)
+    Ok (mkDoc (map snd imgs) (map snd effs)
               (map snd mats) anims (map Vgeom geoms) (map snd ctrls) lights cams
               (map Vnview (snd ln))
               (map (fun s => Vl [Vn (snd (fst s)); Voaval (fst (fst s)); Vl (map Vnview (snd s))]) scenes)
-              sc)))))))))).
+              sc)))))))))))).
 End Document.
 
 (* MODEL: the loader's algorithms *)
